@@ -223,6 +223,27 @@ def table_o_shape(facts, rep, rule, w):
                     for g in trp.guards_at(s_.bb):
                         if g[0] in ("bool", "inteq", "intne"):
                             cond.append(fmt_guard(g)[:60])
+        # a name that cannot be handed out (not UTF-8) fails the listing — it is not left out: the Err side of the name
+        # conversion leads to Err returns only
+        for cb in inter.code_bodies(b):
+            trp = get_tracer(facts, cb)
+            cases_ = inter.ret_cases(cb) if cb.kind != "Closure" or cb.coroutine else inter.ret_cases(cb)
+            for blk in cb.blocks:
+                if blk.cleanup or blk.term.kind != "switch":
+                    continue
+                dt_ = trp.operand(blk.term.discr)
+                if not any(x[0] == "call" and isinstance(x[1], str) and short(x[1]).split("::")[-1] in ("into_string", "to_str", "from_utf8")
+                           for x in walk(dt_)):
+                    continue
+                for (es, ed, lab) in trp.cfg.edges:
+                    if es != blk.idx or lab is None:
+                        continue
+                    if not any(p_[0] == "variant" and p_[2] == "err" for p_ in trp.edge_pred(blk.term, lab)):
+                        continue
+                    after = trp.cfg.reachable_from(ed)
+                    pols = {inter.case_polarity(ct) for ct, _, rbb in cases_ if rbb in after}
+                    if pols - {"err"}:
+                        cond.append("its name converts (a name that does not is skipped)")
         okl = not shaping and not cond
         n += 1
         rep.ob(rule, b.id, "read_dir: every entry of the directory is listed (no filter, no condition)", okl, "" if okl else
